@@ -123,3 +123,37 @@ func CachedBad(i int) int {
 
 // seeded: write through a pointer obtained from a global array
 func TweakBad(i int) { p := &lookup; p[i&3]++ }
+
+// a shallow copy of a table of the font still shares its arrays with it: writing through the copy, in a helper that
+// receives its address from an array of pointers, writes into the font
+
+func resolveBad(t *Table, k int) {
+	for i := range t.Metrics {
+		t.Metrics[i] += k
+	}
+}
+
+func (f *Face) CompileBad(k int) int {
+	tab := f.tab // shallow copy
+	tabs := [1]*Table{&tab}
+	for _, t := range tabs {
+		resolveBad(t, k)
+	}
+	return tab.Metrics[0]
+}
+
+// the copy owns its array: fine
+func resolveGood(t *Table, k int) {
+	for i := range t.Metrics {
+		t.Metrics[i] += k
+	}
+}
+
+func (f *Face) CompileGood(k int) int {
+	tab := Table{Metrics: append([]int(nil), f.tab.Metrics...)}
+	tabs := [1]*Table{&tab}
+	for _, t := range tabs {
+		resolveGood(t, k)
+	}
+	return tab.Metrics[0]
+}
